@@ -494,7 +494,7 @@ fn c03_membership_tag_forbidden_for_non_members() {
 /// With no membership key (ExternalGroup, external commits) the tag of a member message is
 /// not checked at all (it cannot be): acceptance then rests on the signature alone.
 #[kani::proof]
-#[kani::unwind(5)]
+#[kani::unwind(10)] // the u64 epoch is written by an 8-iteration loop
 #[kani::stub(zeroize::optimization_barrier, noop_barrier)]
 fn c03_membership_tag_required_for_members() {
     let p = ghost(true);
